@@ -76,7 +76,7 @@ def shapes_d2k2():
 
 def nkeys(shape):
     def cnt(x):
-        return 0 if x == 0 else sum(1 + cnt(y) for y in x)
+        return 0 if (x == 0 or x is None) else sum(1 + cnt(y) for y in x)
     return cnt(ast.literal_eval(shape))
 
 
@@ -99,6 +99,13 @@ family("", 2, [], 4 if THOROUGH else 3, extra=KNOWN)
 family("|keys-nonempty", 2, [NONEMPTY], 4 if THOROUGH else 3, extra=KNOWN)
 # separator-free keys (one word each), non-empty
 family("|keys-dotfree-nonempty", 1, [NONEMPTY], 12 if THOROUGH else 8)
+
+# JSON null atoms ("however dictionaries, lists and scalars replace one another": a key that is present and holds null is
+# not an absent key): separator-free non-empty keys, shapes with `None` leaves against every small shape
+_NULL_BASES = ["[None]", "[0]", "[None,0]", "[[None]]", "[[0]]", "[]"]
+_NULL_CURRS = ["[]", "[0]", "[None]", "[None,0]", "[0,0]", "[None,None]", "[[None]]", "[[0]]", "[[]]", "[[None],0]"]
+for _b in _NULL_BASES:
+    roundtrip(_b, _NULL_CURRS, family="|null-leaves|keys-dotfree-nonempty", maxwords=1, requires=[NONEMPTY])
 
 # ---------------------------------------------------------------- the two patch primitives on their own (bounded)
 # (on deltas produced by compute_delta from separator-free keys `_set_path` never has to create an intermediate
